@@ -763,6 +763,25 @@ pub fn run(rep: &mut Report) {
 		cover.count("native_reference_cone_runs", t.ref_runs);
 	}
 
+	// native-only extras: Debug-formatting interrupted by a panic / run while unwinding, then ordinary use on
+	// the same thread (each such history runs on a thread of its own; its reference cones do not)
+	let nx: Vec<Vec<Op>> = Profile::extras_native();
+	let nxlines: Vec<(usize, String)> = nx.iter().enumerate().map(|(i, h)| (i, history_line(i, h, None))).collect();
+	let nxwhat = |i: usize| -> (String, serde_json::Value) {
+		let tok = nx.get(i).map(|h| ops::history_token(h)).unwrap_or_else(|| "?".to_owned());
+		(format!("history {}", describe_token(&tok)), json!({"check": "C10", "kind": "history", "history": tok, "detector": "native-only"}))
+	};
+	let nx_done = native_exec(&ctx, "extras-native", &nxlines, &mut viols, &nxwhat);
+	cover.count("native_only_extras_debug_under_panic", nx_done.len() as u64);
+	cover.impl_runs += nx_done.len() as u64;
+	cover.evaluations += nx_done.len() as u64;
+	cover.states += nx_done.len() as u64;
+	cover.transitions += nx.iter().map(|h| h.len() as u64).sum::<u64>();
+	for h in &nx {
+		cover.nontrivial.insert(hash64(&("native-extra", ops::history_token(h))));
+	}
+	let nx_total = nx.len();
+
 	let mut phase_s: BTreeMap<&'static str, f64> = BTreeMap::new();
 	phase_s.insert("native_sweep", rep.started.elapsed().as_secs_f64());
 	let mut mark = Instant::now();
@@ -986,6 +1005,9 @@ pub fn run(rep: &mut Report) {
 		guard("free-running thread pairs under Miri", free_done as u64);
 	}
 	guard("thread merges", tn.len() as u64);
+	if !have_violations && nx_done.len() != nx_total {
+		machinery(&format!("only {} of {nx_total} native-only extras (Debug under a panic) were executed", nx_done.len()));
+	}
 	if thorough && !skipped("asan") {
 		guard("histories under AddressSanitizer", asan_histories);
 	}
@@ -1109,6 +1131,8 @@ pub fn replay(v: &serde_json::Value) -> i32 {
 	let uses_c_codec = r["history"].as_str().and_then(ops::parse_history).map_or(false, |h| h.iter().any(|o| matches!(o, Op::Open(_, c, _) if c.is_c())));
 	let det = match detector.as_str() {
 		"asan" | "valgrind" => detector.as_str(),
+		// thread-local state after a panic is not a memory error: the native differential run decides
+		"native-only" => "none",
 		_ if uses_c_codec => "asan",
 		_ => "miri",
 	};
@@ -1121,9 +1145,10 @@ pub fn replay(v: &serde_json::Value) -> i32 {
 			ensure_asan(&ctx);
 			failed |= run_det("asan", sweep_cmd_exec(&ctx, Detector::Asan, &f));
 		}
-		_ => {
+		"valgrind" => {
 			failed |= run_det("valgrind", sweep_cmd_exec(&ctx, Detector::Valgrind, &f));
 		}
+		_ => {}
 	}
 	if failed {
 		println!("replay: the case still fails");
